@@ -373,3 +373,201 @@ Example C10_example_eval_table_miss :
   eval_premises_b (firstn 0 C10_excx ++ [((TInt, true, [43%N]), F2 TInt [(CInt 2, CInt 1, CInt 3)]%Z)]) C10_exf C10_exe = false
   /\ eval [] [((TInt, true, [43%N]), F2 TInt [(CInt 2, CInt 1, CInt 3)]%Z)] C10_exf [90%N] C10_exe = Panic.
 Proof. split; vm_compute; reflexivity. Qed.
+
+(* ================================================================== wave 5: Sort, Distinct, GroupBy, Aggregate,
+   QFrames and the serializers (Proofs/StickyProofs2.v) on the frame-level models the engines run
+   (Model/SortFrame.v sort_frame; Model/Aggregate.v distinct, group_by, aggregate, qframes). *)
+From QF Require Import Model.Sort Model.SortFrame Model.Aggregate Proofs.StickyProofs2.
+From QF Require Model.Grouper Model.Observe Model.JsonRead Model.Sql Model.IOFault Model.CsvWrite.
+From QF Require Proofs.SortFrameProofs Proofs.AggregateProofs Proofs.GrouperHash.
+
+(* ---- stickiness: a failed receiver is returned unchanged *)
+Theorem C10_sticky_sort f orders : ferr f = true -> sort_frame f orders = Ok f.
+Proof. exact (sort_sticky f orders). Qed.
+Print Assumptions C10_sticky_sort.
+Theorem C10_sticky_distinct mh rnd nulleq f columns : ferr f = true -> distinct mh rnd nulleq f columns = Ok f.
+Proof. exact (distinct_sticky mh rnd nulleq f columns). Qed.
+Print Assumptions C10_sticky_distinct.
+(* any sequence of Sort / Distinct calls after the first error *)
+Theorem C10_sticky_chain2 f ops : ferr f = true -> ofold run_op2 ops f = Ok f.
+Proof. exact (chain2_sticky f ops). Qed.
+Print Assumptions C10_sticky_chain2.
+
+(* ---- GroupBy / Aggregate / QFrames pass the error on: the Grouper of a failed frame has Err, Aggregate of a
+   Grouper with Err is a failed frame (no rows: Len = -1), QFrames returns the error *)
+Theorem C10_sticky_groupby mh rnd nulleq f columns :
+  ferr f = true -> exists g, group_by mh rnd nulleq f columns = Ok g /\ gerr g = true.
+Proof. exact (fun H => ex_intro _ err_grouper (conj (group_by_sticky mh rnd nulleq f columns H) err_grouper_err)). Qed.
+Print Assumptions C10_sticky_groupby.
+Theorem C10_sticky_aggregate ft g aggs :
+  gerr g = true -> exists r, aggregate ft g aggs = Ok r /\ ferr r = true /\ frame_len r = (-1)%Z.
+Proof. exact (fun H => ex_intro _ err_frame (conj (aggregate_sticky ft g aggs H) err_frame_err)). Qed.
+Print Assumptions C10_sticky_aggregate.
+Theorem C10_sticky_qframes g : gerr g = true -> qframes g = Fail.
+Proof. exact (qframes_sticky g). Qed.
+Print Assumptions C10_sticky_qframes.
+Theorem C10_sticky_groupby_aggregate mh rnd nulleq ft f columns aggs :
+  ferr f = true -> (do gr <- group_by mh rnd nulleq f columns; aggregate ft gr aggs) = Ok err_frame.
+Proof. exact (groupby_aggregate_sticky mh rnd nulleq ft f columns aggs). Qed.
+Print Assumptions C10_sticky_groupby_aggregate.
+Theorem C10_sticky_groupby_qframes mh rnd nulleq f columns :
+  ferr f = true -> (do gr <- group_by mh rnd nulleq f columns; qframes gr) = Fail.
+Proof. exact (groupby_qframes_sticky mh rnd nulleq f columns). Qed.
+Print Assumptions C10_sticky_groupby_qframes.
+
+(* ---- no callback: on a failed receiver the result is the same for ALL values of the other arguments - the
+   orders, the columns, memhash, the random source, Null(...), the aggregations with their recorded function
+   tables (GUser tbl), the float oracle: nothing of it is consulted *)
+Theorem C10_failed_no_callback_sort f o1 o2 : ferr f = true -> sort_frame f o1 = sort_frame f o2.
+Proof. exact (sort_no_callback f o1 o2). Qed.
+Print Assumptions C10_failed_no_callback_sort.
+Theorem C10_failed_no_callback_distinct mh1 mh2 rnd1 rnd2 n1 n2 f c1 c2 :
+  ferr f = true -> distinct mh1 rnd1 n1 f c1 = distinct mh2 rnd2 n2 f c2.
+Proof. exact (distinct_no_callback mh1 mh2 rnd1 rnd2 n1 n2 f c1 c2). Qed.
+Print Assumptions C10_failed_no_callback_distinct.
+Theorem C10_failed_no_callback_groupby mh1 mh2 rnd1 rnd2 n1 n2 f c1 c2 :
+  ferr f = true -> group_by mh1 rnd1 n1 f c1 = group_by mh2 rnd2 n2 f c2.
+Proof. exact (group_by_no_callback mh1 mh2 rnd1 rnd2 n1 n2 f c1 c2). Qed.
+Print Assumptions C10_failed_no_callback_groupby.
+Theorem C10_failed_no_callback_aggregate ft1 ft2 g a1 a2 : gerr g = true -> aggregate ft1 g a1 = aggregate ft2 g a2.
+Proof. exact (aggregate_no_callback ft1 ft2 g a1 a2). Qed.
+Print Assumptions C10_failed_no_callback_aggregate.
+Theorem C10_failed_no_callback_groupby_aggregate mh1 mh2 rnd1 rnd2 n1 n2 ft1 ft2 f c1 c2 a1 a2 :
+  ferr f = true ->
+  (do gr <- group_by mh1 rnd1 n1 f c1; aggregate ft1 gr a1) = (do gr <- group_by mh2 rnd2 n2 f c2; aggregate ft2 gr a2).
+Proof. exact (groupby_aggregate_no_callback mh1 mh2 rnd1 rnd2 n1 n2 ft1 ft2 f c1 c2 a1 a2). Qed.
+Print Assumptions C10_failed_no_callback_groupby_aggregate.
+
+(* ---- invalid use of these operations: Err, never a panic (the theorems of C03 / C04 / C05, restated here) *)
+(* Sort: an order naming no column gives Err; on a well-formed frame Sort never panics, for all orders *)
+Theorem C10_sort_unknown f orders :
+  ferr f = false -> SortFrameProofs.orders_known f orders = false -> sort_frame f orders = Ok (with_err f).
+Proof. exact (SortFrameProofs.frame_sort_unknown f orders). Qed.
+Print Assumptions C10_sort_unknown.
+Theorem C10_no_panic_sort f orders :
+  wf_frame f = true ->
+  exists g, sort_frame f orders = Ok g /\ wf_frame g = true /\
+    ferr g = ferr f || negb (SortFrameProofs.orders_known f orders).
+Proof. exact (SortFrameProofs.frame_sort_no_panic f orders). Qed.
+Print Assumptions C10_no_panic_sort.
+(* Distinct: an unknown column gives Err - on a frame WITH rows (the length test comes first in the Go code: on a
+   frame without rows an unknown column is NOT reported, C10_distinct_unknown_no_rows; known finding) *)
+Theorem C10_distinct_unknown dst f columns :
+  ferr f = false -> ix f <> [] -> forallb (contains f) columns = false ->
+  distinct_with dst f columns = Ok (with_err f).
+Proof. exact (AggregateProofs.distinct_unknown_column dst f columns). Qed.
+Print Assumptions C10_distinct_unknown.
+Theorem C10_distinct_unknown_no_rows dst f columns : ix f = [] -> distinct_with dst f columns = Ok f.
+Proof. exact (AggregateProofs.distinct_no_rows dst f columns). Qed.
+Print Assumptions C10_distinct_unknown_no_rows.
+(* GroupBy: an unknown column gives a Grouper with Err (also without rows), which Aggregate passes on *)
+Theorem C10_groupby_unknown grp f columns :
+  forallb (contains f) columns = false -> exists g, group_by_with grp f columns = Ok g /\ gerr g = true.
+Proof. exact (group_by_unknown_column grp f columns). Qed.
+Print Assumptions C10_groupby_unknown.
+Theorem C10_groupby_unknown_aggregate mh rnd nulleq ft f columns aggs :
+  forallb (contains f) columns = false ->
+  (do gr <- group_by mh rnd nulleq f columns; aggregate ft gr aggs) = Ok err_frame.
+Proof. exact (groupby_unknown_aggregate mh rnd nulleq ft f columns aggs). Qed.
+Print Assumptions C10_groupby_unknown_aggregate.
+(* Distinct / GroupBy on a well-formed frame without Err, known columns: no panic, no error - for every memhash
+   and random source.  Premises of the hash table theorems: duplicate-free index of at most 2^30 rows, float
+   cells are 64 bit patterns *)
+Theorem C10_no_panic_distinct memhash rnd nulleq f columns :
+  AggregateProofs.frame_ok f -> forallb (contains f) columns = true ->
+  (forall i, In i (ix f) ->
+     Forall GrouperHash.cell_wf (key_cells (AggregateProofs.key_columns f (AggregateProofs.distinct_columns f columns)) i)) ->
+  exists d, distinct memhash rnd nulleq f columns = Ok (with_ix f d) /\
+            Grouper.distinct_ok (key_eqb nulleq (AggregateProofs.key_columns f (AggregateProofs.distinct_columns f columns))) (ix f) d.
+Proof. exact (AggregateProofs.distinct_frame memhash rnd nulleq f columns). Qed.
+Print Assumptions C10_no_panic_distinct.
+(* Aggregate on the Grouper of a well-formed frame: no panic when the recorded tables answer; the result carries
+   Err exactly when an aggregation is invalid (unknown column, name already taken, function not applicable) *)
+Theorem C10_no_panic_aggregate ft g aggs :
+  AggregateProofs.grouper_wf g -> AggregateProofs.tables_complete ft g aggs ->
+  exists out, aggregate ft g aggs = Ok out /\ (ferr out = false -> exists t, abs out = Ok t).
+Proof. exact (AggregateProofs.aggregate_total ft g aggs). Qed.
+Print Assumptions C10_no_panic_aggregate.
+Theorem C10_aggregate_invalid ft g aggs out :
+  gerr g = false -> aggregate ft g aggs = Ok out ->
+  (ferr out = true <->
+   exists i a, nth_error aggs i = Some a /\
+               agg_invalid g (gkeys g ++ map agg_name (firstn i aggs)) a = true).
+Proof. exact (AggregateProofs.aggregate_err_iff ft g aggs out). Qed.
+Print Assumptions C10_aggregate_invalid.
+
+(* ---- the serializers on a failed frame: an error is returned, nothing is written, no statement is executed.
+   Model/JsonRead.v frame_to_json (run by the strings engine) makes the Err test itself.  Model/Observe.v
+   frame_to_csv / frame_to_json and Model/Sql.v to_sql model the body AFTER the test `if qf.Err != nil { return
+   qerrors.Propagate(...) }` with which ToCSV, ToJSON and ToSQL begin in qframe.go; to_csv_checked,
+   to_json_checked, to_sql_checked (Proofs/StickyProofs2.v) are these models behind that test. *)
+Theorem C10_to_json_failed f : ferr f = true -> JsonRead.frame_to_json f = Fail.
+Proof. exact (json_failed f). Qed.
+Print Assumptions C10_to_json_failed.
+Theorem C10_to_csv_failed ff f conf : ferr f = true -> to_csv_checked ff f conf = Fail.
+Proof. exact (to_csv_failed ff f conf). Qed.
+Print Assumptions C10_to_csv_failed.
+Theorem C10_to_json_checked_failed af f : ferr f = true -> to_json_checked af f = Fail.
+Proof. exact (to_json_failed af f). Qed.
+Print Assumptions C10_to_json_checked_failed.
+(* for every configuration and every driver behaviour: no statement reaches the driver *)
+Theorem C10_to_sql_failed f conf exec_ok : ferr f = true -> to_sql_checked f conf exec_ok = ([], Sql.SErr).
+Proof. exact (to_sql_failed f conf exec_ok). Qed.
+Print Assumptions C10_to_sql_failed.
+(* without Err the wrappers ARE the models *)
+Theorem C10_checked_ok ff af f conf sconf exec_ok :
+  ferr f = false ->
+  to_csv_checked ff f conf = Observe.frame_to_csv ff f conf
+  /\ to_json_checked af f = Observe.frame_to_json af f
+  /\ to_sql_checked f sconf exec_ok = Sql.to_sql (sql_frame_of f) sconf exec_ok.
+Proof.
+  exact (fun H => conj (to_csv_checked_ok ff f conf H) (conj (to_json_checked_ok af f H) (to_sql_checked_ok f sconf exec_ok H))).
+Qed.
+Print Assumptions C10_checked_ok.
+(* the Sql view of the physical frame shows the logical cells (null string / enum cell -> NULL) *)
+Theorem C10_sql_cell_at c p : Sql.cell_at (sql_col c) p = do x <- cell_at c p; Ok (dval_of_cell x).
+Proof. exact (sql_cell_at c p). Qed.
+Print Assumptions C10_sql_cell_at.
+(* at the level of the io.Writer (Model/IOFault.v): with Err the writer has accepted nothing more than before *)
+Theorem C10_to_csv_io_failed header rows w : to_csv_io_checked true header rows w = Ok (IOFault.fw_got w, true).
+Proof. exact (to_csv_io_failed header rows w). Qed.
+Print Assumptions C10_to_csv_io_failed.
+Theorem C10_to_json_io_failed records w : to_json_io_checked true records w = (IOFault.fw_got w, true).
+Proof. exact (to_json_io_failed records w). Qed.
+Print Assumptions C10_to_json_io_failed.
+(* the test is not redundant: the bodies do write / execute *)
+Theorem C10_to_json_unchecked_writes records w :
+  1 <= IOFault.fw_left w -> exists rest, fst (IOFault.to_json records w) = IOFault.fw_got w ++ 91%N :: rest.
+Proof. exact (to_json_io_unchecked_writes records w). Qed.
+Print Assumptions C10_to_json_unchecked_writes.
+Theorem C10_to_sql_unchecked_executes f conf exec_ok p rest args :
+  ix f = p :: rest -> Sql.row_args (sql_frame_of f) 0 = Ok args ->
+  fst (Sql.to_sql (sql_frame_of f) conf exec_ok) <> [].
+Proof. exact (to_sql_unchecked_executes f conf exec_ok p rest args). Qed.
+Print Assumptions C10_to_sql_unchecked_executes.
+
+(* ---- examples: a failed frame with rows and columns (C10_exf with Err set) through every operation above *)
+Definition C10_exff : frame := with_err C10_exf.
+Definition C10_exmh (b : bytes) (seed : N) : N := fold_left (fun h x => (h * 31 + x + 7) mod 2 ^ 64)%N b seed.
+Definition C10_exaggs : list aggregation :=
+  [mkAgg (GUser TInt [([CInt 3; CInt 5], CInt 8); ([CInt 2], CInt 2)]%Z) [65%N] [88%N]; mkAgg (GName name_count) [65%N] [67%N]].
+Example C10_example_failed :
+  ferr C10_exff = true /\ ix C10_exff = [2; 0; 3]
+  /\ sort_frame C10_exff [([65%N], false, false)] = Ok C10_exff
+  /\ distinct C10_exmh (fun _ _ => 0%N) false C10_exff [[83%N]] = Ok C10_exff
+  /\ (do gr <- group_by C10_exmh (fun _ _ => 0%N) false C10_exff [[69%N]]; aggregate [] gr C10_exaggs) = Ok err_frame
+  /\ (do gr <- group_by C10_exmh (fun _ _ => 0%N) false C10_exff [[69%N]]; qframes gr) = Fail
+  /\ JsonRead.frame_to_json C10_exff = Fail
+  /\ to_csv_checked (fun _ => []) C10_exff (CsvWrite.mkToConf true None) = Fail
+  /\ to_sql_checked C10_exff (Sql.mkCfg [116%N] 0 false 0 None) (fun _ => true) = ([], Sql.SErr).
+Proof. vm_compute. repeat split; reflexivity. Qed.
+(* the same calls on the frame WITHOUT Err do something (the hypotheses of the "unchecked" theorems hold) *)
+Example C10_example_not_failed :
+  ferr C10_exf = false
+  /\ option_map ix (match sort_frame C10_exf [([65%N], false, false)] with Ok r => Some r | _ => None end) = Some [2; 0; 3]
+  /\ option_map ix (match sort_frame C10_exf [([65%N], true, false)] with Ok r => Some r | _ => None end) = Some [3; 0; 2]
+  /\ option_map ferr (match sort_frame C10_exf [([90%N], false, false)] with Ok r => Some r | _ => None end) = Some true
+  /\ (do gr <- group_by C10_exmh (fun _ _ => 0%N) false C10_exf [[69%N]]; aggregate [] gr C10_exaggs)
+     = Ok (mkFrame [([69%N], ECol [1; 0]%N [[120%N]; [121%N]] false); ([88%N], ICol [2; 8]%Z); ([67%N], ICol [1; 2]%Z)] [0; 1] false)
+  /\ length (fst (to_sql_checked C10_exf (Sql.mkCfg [116%N] 0 false 0 None) (fun _ => true))) = 3.
+Proof. vm_compute. repeat split; reflexivity. Qed.
